@@ -92,6 +92,26 @@ func TestVerifC02(t *testing.T) {
 		d := keys[rng.Intn(len(keys))]
 		cases = append(cases, &c02case{d: d, priv: ref.B32(d), e: rng.Bytes(32), stream: rng.Bytes(32 * 8), chunk: chunks[rng.Intn(len(chunks))], plan: "random"})
 	}
+	// digests that are not reduced: e = n, n+1, 2^256-1, FFFFFFFF||random, 0, 1
+	for i := 0; i < hk.N(60, 600); i++ {
+		d := keys[rng.Intn(len(keys))]
+		var e []byte
+		switch i % 6 {
+		case 0:
+			e = ref.B32(nI)
+		case 1:
+			e = ref.B32(new(big.Int).Add(nI, bi(1)))
+		case 2:
+			e = ref.B32(new(big.Int).Sub(b256, bi(1)))
+		case 3:
+			e = append([]byte{0xff, 0xff, 0xff, 0xff}, rng.Bytes(28)...)
+		case 4:
+			e = make([]byte, 32)
+		default:
+			e = ref.B32(bi(1))
+		}
+		cases = append(cases, &c02case{d: d, priv: ref.B32(d), e: e, stream: rng.Bytes(32 * 8), chunk: chunks[rng.Intn(len(chunks))], plan: "random"})
+	}
 	// nonce boundary values as first candidate: 1, 2, n-1, n-2
 	for _, k := range []*big.Int{bi(1), bi(2), nm1, nm2} {
 		for j := 0; j < 3; j++ {
